@@ -9,6 +9,7 @@ Model: `Model/Attest.lean` (`verifyAgainstTx`, `attest`, `step`, `run`) on top o
 -/
 import PalomaModel.Model.Attest
 import PalomaModel.Props.C05
+import PalomaModel.Props.C04
 
 namespace Paloma.Attest
 open Paloma.Abi Paloma.SignBytes
@@ -347,6 +348,7 @@ theorem step_inv (s : St) (op : Op) (hi : Inv s) : Inv (step s op) := by
   | setChain c =>
     exact ⟨hi.idBound, hi.accBound, hi.accGone, hi.accIds, hi.accTxs, hi.accProcessed, hi.fxOwner, hi.fxOnce⟩
   | attest id w => exact attest_inv s id w hi
+  | attestEv id snap evs => exact attest_inv s id (winnerOf snap evs) hi
 
 theorem run_inv : ∀ (ops : List Op) (s : St), Inv s → Inv (run s ops)
   | [], _, hi => hi
@@ -410,6 +412,93 @@ theorem consensus_typed (vs : GoValset) (sd : List SignData) (h : ConsWf vs sd) 
 theorem consWf_take (vs : GoValset) (sd : List SignData) (h : ConsWf vs sd) (i : Nat) :
     ConsWf vs (sd.take i) :=
   ⟨h.nvals, h.npows, h.pows, h.vid, fun s hs => h.sigs s (List.mem_of_mem_take hs)⟩
+
+/-! ### evidence of several validators -/
+
+theorem firstIdx_getD (l : List ProofV) (a d : ProofV) (h : a ∈ l) : l.getD (firstIdx l a) d = a := by
+  induction l with
+  | nil => cases h
+  | cons x xs ih =>
+    unfold firstIdx
+    split
+    · rename_i hx
+      simp [hx]
+    · rename_i hx
+      have : a ∈ xs := by
+        rcases List.mem_cons.1 h with h | h
+        · exact absurd h.symm hx
+        · exact h
+      simpa using ih this
+
+theorem firstIdx_inj (l : List ProofV) (a b : ProofV) (ha : a ∈ l) (hb : b ∈ l)
+    (h : firstIdx l a = firstIdx l b) : a = b := by
+  rw [← firstIdx_getD l a (ProofV.other 0) ha, ← firstIdx_getD l b (ProofV.other 0) hb, h]
+
+theorem mem_hashes : ∀ (evs : List Libcons.Evidence) (h : Nat), h ∈ Libcons.hashes evs → ∃ e ∈ evs, e.2 = h
+  | [], h, hm => by simp [Libcons.hashes] at hm
+  | e :: es, h, hm => by
+    simp only [Libcons.hashes, List.mem_cons] at hm
+    rcases hm with rfl | hm
+    · exact ⟨e, List.mem_cons_self, rfl⟩
+    · obtain ⟨e', he', h'⟩ := mem_hashes es h (List.mem_filter.1 hm).1
+      exact ⟨e', List.mem_cons_of_mem _ he', h'⟩
+
+/-- the validators whose evidence is byte-identical to `P` -/
+def groupFor (evs : List EvidenceV) (P : ProofV) : List Nat :=
+  (evs.filter fun e => decide (e.2 = P)).map (·.1)
+
+theorem group_eq (evs : List EvidenceV) (P : ProofV) (hP : P ∈ evs.map (·.2)) :
+    Libcons.groupOf (toLibcons evs) (firstIdx (evs.map (·.2)) P) = groupFor evs P := by
+  unfold Libcons.groupOf toLibcons groupFor
+  rw [List.filter_map, List.map_map]
+  have : (evs.filter ((fun e : Libcons.Evidence => e.2 == firstIdx (evs.map (·.2)) P) ∘
+      fun e : EvidenceV => (e.1, firstIdx (evs.map (·.2)) e.2))) = evs.filter fun e => decide (e.2 = P) := by
+    apply List.filter_congr
+    intro e he
+    have hm : e.2 ∈ evs.map (·.2) := List.mem_map.2 ⟨e, he, rfl⟩
+    simp only [Function.comp]
+    by_cases hc : e.2 = P
+    · simp [hc]
+    · have : firstIdx (evs.map (·.2)) e.2 ≠ firstIdx (evs.map (·.2)) P :=
+        fun h => hc (firstIdx_inj _ _ _ hm hP h)
+      simp [hc, this]
+  rw [this]
+  rfl
+
+/-- what `VerifyEvidence` guarantees about its winner -/
+theorem winnerOf_spec (snap : Libcons.Snapshot) (evs : List EvidenceV) (h : winnerOf snap evs ≠ .none) :
+    ∃ P, P ∈ evs.map (·.2) ∧ winnerOf snap evs = P.toWinner ∧
+      (Libcons.tally snap (groupFor evs P)).consensus = true := by
+  unfold winnerOf at h
+  split at h
+  · exact absurd rfl h
+  · rename_i ws hv
+    split at h
+    · exact absurd rfl h
+    · rename_i hd tl
+      have hw : hd ∈ Libcons.winners snap (toLibcons evs) := by
+        unfold Libcons.verifyEvidence at hv
+        split at hv
+        · cases hv
+        · split at hv
+          · cases hv
+          · injection hv with hv
+            rw [hv]
+            exact List.mem_cons_self
+      have hc := Libcons.mem_winners hw
+      obtain ⟨e, he, heq⟩ := mem_hashes _ _ (List.mem_filter.1 hw).1
+      unfold toLibcons at he
+      rw [List.mem_map] at he
+      obtain ⟨e0, he0, rfl⟩ := he
+      have heq : firstIdx (evs.map (·.2)) e0.2 = hd := heq
+      have hm : e0.2 ∈ evs.map (·.2) := List.mem_map.2 ⟨e0, he0, rfl⟩
+      have hwin : winnerOf snap evs = ((evs.map (·.2)).getD hd (ProofV.other 0)).toWinner := by
+        unfold winnerOf
+        rw [hv]
+      refine ⟨e0.2, hm, ?_, ?_⟩
+      · rw [hwin, ← heq, firstIdx_getD _ _ _ hm]
+      · rw [← group_eq evs e0.2 hm, heq]
+        exact hc
 
 end Lemmas
 
@@ -579,6 +668,54 @@ theorem empty_prefix_never_tried (m : QMsg) (data : Bytes) (hu : isUp m.action =
     simp at h2
     omega
 
+/-- **receipt_is_part_of_the_evidence_identity.** The evidence of the validators is grouped by the
+bytes of the WHOLE proof — transaction and receipt (`BytesToHash` = serialized tx ++ serialized
+receipt).  If the vote yields the transaction proof `p`, then the validators whose evidence is
+byte-identical to `p` (same transaction, same receipt status, same logs, same everything) hold at
+least 2/3 of the snapshot's shares.  Evidence with the same transaction but another receipt does
+not count towards it. -/
+theorem receipt_is_part_of_the_evidence_identity (snap : Libcons.Snapshot) (evs : List EvidenceV)
+    (p : TxProof) (h : winnerOf snap evs = .tx p) :
+    (Libcons.tally snap (groupFor evs (.tx p))).consensus = true ∧ ProofV.tx p ∈ evs.map (·.2) := by
+  obtain ⟨P, hP, hw, hc⟩ := winnerOf_spec snap evs (by rw [h]; intro h'; cases h')
+  rw [h] at hw
+  cases P with
+  | tx q =>
+    simp only [ProofV.toWinner, Winner.tx.injEq] at hw
+    subst hw
+    exact ⟨hc, hP⟩
+  | errorProof _ => simp [ProofV.toWinner] at hw
+  | other _ => simp [ProofV.toWinner] at hw
+
+/-- **effects_need_quorum_on_success_receipt.** C07 with disagreeing validators: success effects
+are produced (result `ok`) only if some transaction proof `p` with a SUCCESS receipt is reported
+byte-identically by validators holding 2/3 of the shares, and its call data is the encoding of the
+message.  A success receipt reported by a minority — first in the list or not — next to a majority
+reporting a failed (or any other) receipt for the same transaction never produces them. -/
+theorem effects_need_quorum_on_success_receipt (s : St) (id : Nat) (snap : Libcons.Snapshot)
+    (evs : List EvidenceV) (h : (attestEv s id snap evs).2 = .ok) :
+    ∃ m p, findMsg s.queue id = some m ∧ p.receipt = some 1 ∧ ExactFor m p.data ∧
+      ProofV.tx p ∈ evs.map (·.2) ∧ (Libcons.tally snap (groupFor evs (.tx p))).consensus = true := by
+  unfold attestEv at h
+  obtain ⟨m, p, hm, hw, hex⟩ := accept_implies_exact_calldata s id _ h
+  obtain ⟨p', hw', hr⟩ := accept_implies_success_receipt s id _ h
+  rw [hw] at hw'
+  injection hw' with hw'
+  subst hw'
+  obtain ⟨hc, hmem⟩ := receipt_is_part_of_the_evidence_identity snap evs p hw
+  exact ⟨m, p, hm, hr, hex, hmem, hc⟩
+
+/-- **disagreeing_receipts_no_effects.** Contrapositive, in the shape of the monitor: when no
+success-receipt proof is backed by a 2/3 group of byte-identical evidence, nothing is accepted. -/
+theorem disagreeing_receipts_no_effects (s : St) (id : Nat) (snap : Libcons.Snapshot)
+    (evs : List EvidenceV)
+    (h : ∀ p : TxProof, p.receipt = some 1 → (Libcons.tally snap (groupFor evs (.tx p))).consensus = false) :
+    (attestEv s id snap evs).2 ≠ .ok := by
+  intro hok
+  obtain ⟨m, p, -, hr, -, -, hc⟩ := effects_need_quorum_on_success_receipt s id snap evs hok
+  rw [h p hr] at hc
+  cases hc
+
 /-- **tx_single_use.** C07, "the same remote transaction is never accepted for a second message":
 over every history of enqueue / update / remove / keeper activity / attestation attempts, the
 transaction hashes of all acceptances are pairwise different, and every accepted transaction is in
@@ -723,6 +860,22 @@ set_option maxRecDepth 100000 in
 example : (attest (attest exS 9 (.tx exP)).1 9 (.tx exP)).2 = .unknownMsg := by decide
 set_option maxRecDepth 100000 in
 example : (run {} [.enqueue (.slc { exF with id := 1 }) exVs exSigs, .enqueue (.slc { exF with id := 2 }) exVs exSigs]).queue.map (·.id) = [1, 2] := by
+  decide
+
+-- four validators with equal shares: 1 success + 3 failed receipts for the same transaction
+def exSnap : Libcons.Snapshot := { vals := [(1, 10), (2, 10), (3, 10), (4, 10)], total := 40 }
+def exFail : TxProof := { exP with receipt := some 0 }
+set_option maxRecDepth 100000 in
+example : (attestEv exS 9 exSnap [(1, .tx exP), (2, .tx exFail), (3, .tx exFail), (4, .tx exFail)]).2 = .txFailed := by
+  decide
+set_option maxRecDepth 100000 in
+example : (attestEv exS 9 exSnap [(1, .tx exP), (2, .tx exP), (3, .tx exFail), (4, .tx exFail)]).2 = .noop := by
+  decide
+set_option maxRecDepth 100000 in
+example : (attestEv exS 9 exSnap [(4, .tx exFail), (1, .tx exP), (2, .tx exP), (3, .tx exP)]).2 = .ok := by
+  decide
+set_option maxRecDepth 100000 in
+example : (attestEv exS 9 exSnap [(1, .tx exP), (2, .tx { exP with variant := 1 }), (3, .tx exP)]).2 = .noop := by
   decide
 
 end Paloma.Attest
